@@ -73,6 +73,10 @@ HullSound ==
     \A k \in 1..4 : h[k][1] <= c[k][1] /\ c[k][2] <= h[k][2] /\ h[k][1] >= 0 /\ h[k][2] <= 255 * CS
 
 (* ---- interval helpers ---------------------------------------------------------------------- *)
+(* MulUn8 is g*m/255 rounded half up, and monotone with steps of at most 1 in g *)
+ASSUME \A a, b \in 0..255 : LET v == MulUn8(a, b) IN
+          /\ 2 * 255 * v <= 2 * a * b + 255 /\ 2 * a * b + 255 < 2 * 255 * (v + 1)
+          /\ (a < 255 => MulUn8(a + 1, b) - v \in {0, 1})
 ASSUME TanTabOK
 ASSUME \A D \in {1, 2, 3, 5, 7, 64, 100, 4097, 8191} : \A r \in {0, 1, 2, D \div 3, D \div 2, D - 1} :
           r < D => FracBits(r, D, TSBits) = (r * TS) \div D
